@@ -70,6 +70,80 @@ func c07NaNUpstream(k *fw.K, src, target []int, via string) {
 	}
 }
 
+// c07SubnormalUpstream: every copy of an operand element carries an upstream weight of m units of 2^-1074 (m = 1..6). The sum over
+// the copies is an exact multiple of the unit. The recorded finding (mean instead of sum) shows as that sum divided by the number
+// of copies, correctly rounded to the subnormal grid - anything else (in particular 0) is a different fault.
+func c07SubnormalUpstream(k *fw.K) {
+	r := k.Rng
+	unit := math.Ldexp(1, -1074)
+	kf := 2 + r.Intn(6)
+	var src, target []int
+	switch r.Intn(3) {
+	case 0:
+		src, target = []int{2, 1}, []int{2, kf}
+	case 1:
+		src, target = []int{3}, []int{kf, 3}
+	default:
+		src, target = []int{}, []int{kf}
+	}
+	x := Shuffled(r, Unique(r, src, 0.2, 2))
+	g := ref.Zeros(target)
+	for i := range g.Data {
+		g.Data[i] = float64(1+r.Intn(6)) * unit
+	}
+	in := ref.Instr{Op: "broadcast", Shape: target}
+	via := []string{"broadcast", "add"}[r.Intn(2)]
+	k.Case = map[string]any{"op": via, "source": src, "target": target, "upstream_in_units_of_2^-1074": g.Map(func(v float64) float64 { return v / unit }).Data}
+	k.Key("subnormal-upstream/%s/%s/%s", via, shapeKey(src), shapeKey(target))
+	k.Count("cases_with_subnormal_upstream_gradients", 1)
+	sum := ref.VJP(in, []*ref.T{x}, nil, g, ref.RuleSum)[0]
+	rx := rt.MustLeaf(x, true)
+	var err error
+	if p := call(func() {
+		var y tensor.Tensor
+		if via == "broadcast" {
+			y, err = rx.Broadcast(ref.CopyInts(target))
+		} else {
+			y, err = rt.MustLeaf(ref.Zeros(target), false).Add(rx)
+		}
+		if err == nil {
+			err = weightedBackprop(y, g)
+		}
+	}); p != nil || err != nil {
+		k.Failf("%s %v -> %v with subnormal upstream weights: panic=%v err=%v", via, src, target, p, err)
+		return
+	}
+	gr := rx.Gradient()
+	if gr == nil {
+		k.Failf("%s %v -> %v: no gradient", via, src, target)
+		return
+	}
+	got, err := rt.Read(gr)
+	if err != nil || !ref.SameShape(got.Shape, src) {
+		k.Failf("%s %v -> %v: gradient unreadable or of shape %v (%v)", via, src, target, got, err)
+		return
+	}
+	isMean := true
+	for i := range got.Data {
+		if got.Data[i] == sum.Data[i] {
+			continue
+		}
+		if got.Data[i] != sum.Data[i]/float64(kf) {
+			isMean = false
+		}
+		if !isMean {
+			k.Failf("%s %v -> %v with upstream weights of a few units of 2^-1074: operand element %d received %v units, the sum over its %d copies is %v units (their mean %v)", via, src, target, i, got.Data[i]/unit, kf, sum.Data[i]/unit, sum.Data[i]/float64(kf)/unit)
+			return
+		}
+	}
+	for i := range got.Data {
+		if got.Data[i] != sum.Data[i] {
+			k.Knownf(knownBroadcastMean, "%s %v -> %v with subnormal upstream weights: the operand receives the MEAN over its %d copies (%v units instead of %v)", via, src, target, kf, got.Data[i]/unit, sum.Data[i]/unit)
+			return
+		}
+	}
+}
+
 // nonFinite puts +-Inf / NaN into some elements of an operand of an operation whose backward rule is value-independent.
 func nonFinite(k *fw.K, x *ref.T) {
 	for i := range x.Data {
@@ -200,6 +274,37 @@ func runC07(c *fw.Ctx) {
 				c.Case(func(k *fw.K) { c07NaNUpstream(k, src, target, via) })
 			}
 		}
+	}
+	// ---- LONG expansions: one axis (the last, a middle or a new leading one) expanded 16..257 times, lengths that are not multiples of
+	// 4 or 8 (unrolled or blocked reductions over the copies must not drop the tail) ----
+	for i := 0; i < c.Pick(240, 4000); i++ {
+		c.Case(func(k *fw.K) {
+			r := k.Rng
+			kf := []int{17, 18, 19, 23, 33, 66, 127, 129, 257}[r.Intn(9)]
+			var src, target []int
+			switch r.Intn(4) {
+			case 0:
+				src, target = []int{3, 1}, []int{3, kf}
+			case 1:
+				src, target = []int{2}, []int{kf, 2}
+			case 2:
+				src, target = []int{2, 1, 2}, []int{2, kf, 2}
+			default:
+				src, target = []int{}, []int{kf}
+			}
+			x := u(k, src)
+			k.Count("long_expansion_cases", 1)
+			if r.Intn(2) == 0 {
+				run(k, ref.Instr{Op: "broadcast", Shape: target}, []*ref.T{x}, []bool{true})
+			} else {
+				run(k, ref.Instr{Op: c03Arith[r.Intn(3)]}, []*ref.T{x, u(k, target)}, []bool{true, r.Intn(2) == 0})
+			}
+		})
+	}
+	// ---- upstream gradients in the SUBNORMAL range (a few units of 2^-1074 per copy): the sum over the copies is exact; shares that
+	// are divided one by one vanish ----
+	for i := 0; i < c.Pick(240, 4000); i++ {
+		c.Case(func(k *fw.K) { c07SubnormalUpstream(k) })
 	}
 	// ---- two graphs that share only a leaf, both built BEFORE either is back-propagated; the leaf is expanded to the same shape in both ----
 	for i := 0; i < c.Pick(1500, 60000); i++ {
